@@ -205,4 +205,20 @@ def getItemB {β : Type} (r : Reader (List β)) (item : Item) (c : ColSel) : Out
   | .refused => .refused
   | .raised => .raised
 
+/-- the deferred `cols` ops of a derived reader, applied in list order to a row of the stacked block
+(`_apply_ops`, traces.py:261-264: `for op, arg in self._ops: arr = arr[:, arg]`) -/
+def applyCols {β : Type} (ops : List ColSel) (row : List β) : List β :=
+  ops.foldl (fun acc c => selCols c acc) row
+
+/-- `reader[:, c1][:, c2]…[item, c]`: every `[:, ck]` returns a clone whose op list has `('cols', ck)`
+appended at the END (`_append_op`, traces.py:254-259; the full slice is not read, :238-240); the final
+`[item, c]` appends `c` the same way, reads and stacks the rows on the stored part bounds, then applies the
+ops in list order.  `ops` = `[c1, c2, …, c]`. -/
+def getItemOps {β : Type} (r : Reader (List β)) (item : Item) (ops : List ColSel) :
+    Outcome (List (List β)) :=
+  match getRowsB r item with
+  | .ok rows => .ok (rows.map (applyCols ops))
+  | .refused => .refused
+  | .raised => .raised
+
 end PhyVerif.C01
